@@ -182,7 +182,8 @@ type bench struct {
 
 	// context of the case, used for signatures
 	scenario string
-	action   string // fault kind / close action / hostile message kind
+	action   string  // fault kind / close action / hostile message kind
+	ctxKind  ctxKind // kind of Context the script hands to the library (set by newSctxKind)
 	stepMu   sync.Mutex
 	step     string
 
@@ -308,7 +309,7 @@ func panicClass(v string) string {
 }
 
 func (b *bench) describe() map[string]interface{} {
-	m := map[string]interface{}{"scenario": b.scenario, "action": b.act(), "link": b.lk.Name(), "step": b.curStep(),
+	m := map[string]interface{}{"scenario": b.scenario, "action": b.act(), "link": b.lk.Name(), "step": b.curStep(), "ctx": b.ctxKind.String(),
 		"reported": b.rep.list(), "peer_log": b.peer.logSummary(40)}
 	if b.extra != nil {
 		m["case"] = b.extra()
@@ -437,9 +438,23 @@ func (b *bench) call(name string, ctx context.Context, c *capnp.Client, method u
 				return nil
 			},
 		})
+		// Evidence only: was the call still unanswered when SendCall
+		// returned (i.e. a question really is outstanding)?
+		outstanding := false
+		select {
+		case <-ans.Done():
+		default:
+			outstanding = true
+		}
 		st, err := ans.Struct()
 		if err != nil {
 			res.err = err
+			if outstanding && b.ctxKind != ctxCancellable && capnp.IsDisconnected(err) {
+				// A call made with a Context that cannot be cancelled was
+				// outstanding and was ended by the shutdown of the
+				// connection (Close / transport failure).
+				b.rec.Count("nocancel_calls_ended_by_shutdown_"+callKindOf(name), 1)
+			}
 		} else {
 			res.val = st.Uint64(0)
 			if wantCap {
@@ -456,6 +471,20 @@ func (b *bench) call(name string, ctx context.Context, c *capnp.Client, method u
 		b.rec.Count("local_calls_err", 1)
 	}
 	return res
+}
+
+// callKindOf tells which library path an application call of the scripts is
+// meant to take: importClient.Send (call on an imported capability),
+// question.PipelineSend (call on the promise of an unanswered question), or
+// either (issued on the bootstrap promise while racing with its Return).
+func callKindOf(op string) string {
+	switch op {
+	case "pipelined-echo", "pipelined-on-loopcap":
+		return "pipelined"
+	case "subsequent-echo", "concurrent-with-close":
+		return "promise-or-import"
+	}
+	return "direct"
 }
 
 // goCall starts call asynchronously; the result arrives on the channel.
@@ -766,6 +795,17 @@ func classifyDeadlock(b *bench, rep *common.DeadlockReport, prop string) (sig, w
 	if n, ok := b.ops.has("call:"); ok {
 		if prop == "C08" {
 			return "C08/caller-hangs/" + b.act(), "local call never resolves: " + n
+		}
+		op := strings.TrimPrefix(n, "call:")
+		if st := b.snapshot(); b.ctxKind != ctxCancellable && st.ShutdownDone {
+			// The connection is shut down (Done() closed, both locks free,
+			// system quiescent) and a call made with a Context that cannot
+			// be cancelled is still unresolved: nothing is left that could
+			// ever resolve it.
+			return "C09/call-pending-after-shutdown/" + b.ctxKind.String() + "/" + callKindOf(op),
+				"call made with a non-cancellable Context (context." + map[ctxKind]string{ctxBackground: "Background", ctxTODO: "TODO"}[b.ctxKind] +
+					"(), Done() == nil) is still pending although the connection has shut down (Conn.Done() closed): " + n +
+					" (scenario " + b.scenario + ", action " + b.act() + ", link " + b.lk.Name() + "); pending " + strings.Join(names, ",")
 		}
 		return "C09/op-hangs/" + strings.TrimPrefix(n, "call:") + "/" + b.act(), "local call never completes: " + n
 	}
